@@ -92,7 +92,7 @@ def program(name, form, kinds, single_paren=False):
     }""" % (payload_ty, k, exp_ok, unchanged)
     macro = {"if_ok_code": "konst::rebind_if_ok!(.. => code)", "if_ok": "konst::rebind_if_ok!", "try": "konst::try_rebind!"}[form]
     harness = check + """
-    tiers! { %s: unwind(8, 8), check(), check(),
+    tiers1! { %s: unwind(8, 8), check(), check(),
         calls("%s"), bounds("every Ok/Err payload (u8 components), every initial value of the places", "same"), exhaustive }
 """ % (name, macro)
     desc = "%s arity %d pattern `%s`" % (form, k, pat)
@@ -148,7 +148,7 @@ def main():
         }
         must_reach!(input.is_ok(), "Ok payload");
     }
-    tiers! { %s: unwind(8, 8), check(), check(),
+    tiers1! { %s: unwind(8, 8), check(), check(),
         calls("konst::%s! (same place listed %d times)"), bounds("every payload", "same"), exhaustive }
 """ % (payload_ty, k - 1, err_expect, name, "rebind_if_ok" if form == "if_ok" else "try_rebind", k)
             fam.add(name, "%s arity %d, same place in every position (assignment order observable)" % (form, k), plain, harness)
